@@ -142,6 +142,7 @@ structure World where
   rreg : List (Nat × Nat) := []
   warnings : Nat := 0
   collisions : Nat := 0   -- value-equal keys overwritten in a copy lookup (diagnostic only, R3)
+  undef : Bool := false   -- a build step needed a reference that is undefined (cyclic relation): the code raises RecursionError there
   identKeys : Bool := false   -- diagnostic twin: key the copy lookup by identity (what the code would do without value equality)
   deriving Inhabited
 
